@@ -7,6 +7,12 @@ ids = [p["id"] for p in props]
 
 # id -> (category, technique, text, note, design_ref)
 claimed = {
+ "C13": ("exploration", "bounded-exhaustive value enumeration (nd explorer), two encoders x decoder round trip with encoding/xml as judge",
+         "Full cross product of IQ/message/presence headers (3 namespaces, 6 ids, 4x4 addresses incl. resourceparts with quotes/&/<>, 3 langs, every defined type), stanza.Error values (types x conditions x by x 0-2 language texts, bare and through IQ.Error/UnmarshalIQError) and stream.Error values (conditions x texts x content x application payloads): xml.Marshal and TokenReader output are both well-formed, decode to the same value, equal the original; Wrap/Result/Error helper and StartElement/NewX inverse laws.",
+         "Trusted: encoding/xml (plus a duplicate-attribute check). The stanza namespace is not carried by the xml.Marshal path of IQ/Message/Presence (inherited from the stream) and is compared on the token path only.", "6/C13"),
+ "C14": ("model_checking", "exhaustive configuration x input enumeration (nd explorer) against an explicit reference model of the match cascade",
+         "Every subset of a 10-pattern universe per stanza kind x every incoming stanza (3 types, child sequences up to length 2 quick / 3 thorough over matched/unmatched/text children) x 6 handler read programs x 2 reader behaviours, all top-level Handle subsets, and the registration laws, run through the real ServeMux.HandleXMPP; a reference cascade (8 lines) decides which handlers must run, in which order, what each can read, and the default replies.",
+         "Trusted: the reference cascade; the mux is driven as the serve loop drives it (xmlstream.InnerElement over a decoder).", "6/C14"),
  "C11": ("exploration", "bounded-exhaustive input enumeration (nd explorer), canonical-form laws on every returned address",
          "Every string of <=5 (quick) / <=6 (thorough) symbols over a 28-symbol adversarial alphabet goes through SplitString/Parse/ParseUnsafe, and the full cross product of part pools (1023/1024-byte parts, IP literals, A-labels that expand, dots, fullwidth separators, invalid UTF-8) through New and WithLocal/WithDomain/WithResource; every address returned without error is checked for re-parse equality, part rules, accessor agreement and XML round trip. Complete enumeration, no sampling.",
          "Trusted: encoding/xml, the 12-line reference splitter. Unicode outside the alphabet/pools is not covered.", "6/C11"),
